@@ -11,7 +11,7 @@ TRUSTED_BASE = [
     "axioms allowed: propext, Classical.choice, Quot.sound (audited per theorem with #print axioms); no native_decide, no bv_decide, no sorry",
     "Lean compiler for the model driver (the correspondence runs compiled definitions that the theorems are about)",
     "the correspondence harness (harness/*.py) and generator (harness/gen.py); CPython ipaddress/hashlib/re; bidict and passlib as installed in /venv",
-    "MD5 is executable only (no theorem depends on it: the IP theorems hold for an arbitrary hash bit h)",
+    "MD5 is executable only: the IP theorems hold for an arbitrary hash bit h, the AS-number theorems for an arbitrary hash value, and the no-survival theorem (C10) uses only that a digest has 16 bytes (Md5.digest_size, by rfl)",
 ]
 
 
@@ -254,7 +254,7 @@ PROPS = {
             "assumptions": SECRET_ASSUME},
     "C10": text_prop("C10", [text_checks.words_scope, text_checks.hashseed_scope]),
     "C11": text_prop("C11", [text_checks.as_scope]),
-    "C12": text_prop("C12", [text_checks.pipeline_corr, text_checks.structure_scope, iptext_checks.long_line_scope]),
+    "C12": text_prop("C12", [text_checks.pipeline_corr, text_checks.structure_scope, text_checks.order_scope, iptext_checks.long_line_scope]),
     "C13": text_prop("C13", [text_checks.pipeline_corr, text_checks.determinism_scope, text_checks.hashseed_scope]),
     "C14": text_prop("C14", [text_checks.pipeline_corr, text_checks.total_scope]),
     "C15": text_prop("C15", [text_checks.pipeline_corr, text_checks.compose_scope]),
